@@ -21,7 +21,7 @@ def finding_for(pid, harness, failed_checks):
 
 
 def decide(pid, tier, scratch, crate, metas, cwd=None, timeout_s=900, replay_kw=None,
-           harness_timeout=None):
+           harness_timeout=None, extra_replay=None, jobs=None):
     """Runs the harnesses in `metas` (name -> meta dict); returns (records, violations, known,
     inconclusive) where violations are natively reproduced counterexamples."""
     names = list(metas)
@@ -30,7 +30,7 @@ def decide(pid, tier, scratch, crate, metas, cwd=None, timeout_s=900, replay_kw=
     if s:
         names = names[s % len(names):] + names[:s % len(names)]
     recs, out, wall = kani(scratch, crate, names, timeout_s=timeout_s, cwd=cwd,
-                           harness_timeout=harness_timeout)
+                           harness_timeout=harness_timeout, jobs=jobs)
     violations, known, inconclusive = [], [], []
     for h in names:
         r = recs[h]
@@ -66,6 +66,18 @@ def decide(pid, tier, scratch, crate, metas, cwd=None, timeout_s=900, replay_kw=
         r["native_replay"] = rep
         log("    solver values: %s" % vals)
         log("    native replay: %s" % rep)
+        if any(v == "reproduced" for v in rep.values()) and extra_replay is not None:
+            # second opinion from the real codecs / real endpoints (tokio runtime): the
+            # counterexample's values are fed to /verif/replay's integration tests
+            ex = extra_replay(h, vals)
+            if ex is not None:
+                r["real_endpoint_replay"] = ex
+                log("    real codec/endpoint replay: %s" % ("reproduced" if ex["reproduced"] else "NOT reproduced"))
+                for l in ex["output"].splitlines()[-8:]:
+                    log("      | " + l)
+                if not ex["reproduced"]:
+                    inconclusive.append((h, "counterexample reproduces in the harness but not against the real codec/endpoint: harness contract too strict?"))
+                    continue
         if any(v == "reproduced" for v in rep.values()):
             kf = finding_for(pid, h, fcs)
             entry = {"harness": h, "failed_checks": fcs, "values": [str(v) for v in vals],
@@ -105,6 +117,7 @@ def finish(pid, tier, t0, recs, violations, known, inconclusive, static, extra_c
             "solver_time_s": r["time_s"],
             "counterexample_values": r.get("counterexample_values"),
             "native_replay": r.get("native_replay"),
+            "real_endpoint_replay": r.get("real_endpoint_replay"),
         })
     cov = {
         "evaluations": max(checks, 1),
